@@ -1,4 +1,17 @@
+-- Root of the `Wbxml` library: everything `lake build` (MANIFEST.setup_cmd) must compile.
 import Wbxml.Prim.Basic
 import Wbxml.Prim.Audit
 import Wbxml.Gen.Tables
 import Wbxml.Gen.Consts
+import Wbxml.Gen.Globals
+import Wbxml.Gen.Fields
+import Wbxml.Model.EncXml
+import Wbxml.Model.TreeOfXml
+import Wbxml.Props.C04
+import Wbxml.Props.C08
+import Wbxml.Props.C11
+import Wbxml.Props.C12
+import Wbxml.Props.C14
+import Wbxml.Props.C15
+import Wbxml.Props.C19
+import Wbxml.Props.C20
